@@ -12,7 +12,7 @@ REQUIRED_COUNTERS = ["ops.memory", "ops.sqlite", "ops.peewee", "state_comparison
 RULE = ("operation histories (5-40 ops quick, up to 200 thorough) over 1-3 buckets of one store, per backend: insert, "
         "bulk insert, bulk upsert (live ids of that bucket mixed with id-less events), replace(id), replace_last "
         "(non-empty bucket, preceded by the limit-1 read that identifies its target), delete(live id), delete(id "
-        "that never existed); timestamps from a pool of 6 instants and end instants from a pool (ties, nesting, "
+        "that never existed), occasionally delete + re-create of the bucket; timestamps from a pool of 6 instants and end instants from a pool (ties, nesting, "
         "zero-length, decreasing order, delete-then-upsert, delete-max-id-then-insert); after EVERY operation the "
         "whole observable state of every bucket (listing multiset + order, limit-1, lookup of every id ever seen, "
         "count) is compared with a dict model (in a third of the cases 'quiet': per-op comparison through the writer "
@@ -72,8 +72,10 @@ def gen_case(rng, ctx):
             ops.append(dict(op="replace_last", b=b, ev=ev()))
         elif r < 0.93:
             ops.append(dict(op="delete", b=b, pick=rng.choice([rng.randrange(100), -1, -1])))   # -1: the max id
-        else:
+        elif r < 0.975:
             ops.append(dict(op="delete_missing", b=b))
+        else:
+            ops.append(dict(op="recreate_bucket", b=b))     # whatever the store remembers about the old bucket must go
     return dict(backend=backend, nb=nb, ops=ops, quiet=rng.random() < 0.35)
 
 
@@ -227,6 +229,11 @@ def run_case(case, ctx):
                 i = live[-1] if op["pick"] < 0 else live[op["pick"] % len(live)]
                 b.delete(i)
                 del m[i]
+            elif kind == "recreate_bucket":
+                ds.delete_bucket(bid)
+                ds.create_bucket(bid, type="t", client="c", hostname="h")
+                b = ds[bid]
+                m.clear()
             elif kind == "delete_missing":
                 missing_id += 1
                 b.delete(missing_id)
